@@ -92,3 +92,41 @@ the hypotheses (built by running the model) -/
 example : ∃ m : Mgr, Inv m ∧ m.tbl.Mem 1 ∧ m.tbl.Mem (-1) := ⟨{}, Inv.init, Or.inl rfl, Or.inl rfl⟩
 
 end DD
+
+namespace DD
+
+/-- C01 (`Function.__le__`): `u <= v` is computed as `(v | ~u) == true`; it holds exactly when
+`u` implies `v` under every assignment (the comparison with `true` decides validity by C02). -/
+theorem C01_le_spec (m : Mgr) (hI : Inv m) (hoff : m.lastLen = none) (u v : Int)
+    (hu : m.tbl.Mem u) (hv : m.tbl.Mem v) :
+    ∃ r m', apply "or" v (some (-u)) none m = (.ok r, m') ∧ Inv m' ∧
+      (r = 1 ↔ ∀ a, den m.tbl u a = true → den m.tbl v a = true) := by
+  obtain ⟨r, m', he, hI', hext, hmem, _, hden⟩ :=
+    apply_binary_spec m hI hoff "or" .or (by decide) (by decide) (by decide) (by decide) (by decide)
+      v (-u) hv (mem_neg hu)
+  refine ⟨r, m', he, hI', ?_⟩
+  have hv1 : r = 1 ↔ ∀ a, den m'.tbl r a = true := by
+    have := canonical m'.tbl hI'.wf r 1 hmem (Or.inl rfl)
+    rw [← this]
+    simp [den_one]
+  rw [hv1]
+  constructor
+  · intro h a hua
+    have := h a
+    rw [hden a, den_neg m.tbl hI.wf.toWF u a hu] at this
+    simp only [Conn.eval, hua, Bool.not_true, Bool.or_false] at this
+    exact this
+  · intro h a
+    rw [hden a, den_neg m.tbl hI.wf.toWF u a hu]
+    simp only [Conn.eval]
+    cases hua : den m.tbl u a
+    · simp
+    · simp [h a hua]
+
+/-- C01 (`Function.__eq__` / `__ne__`): integer equality of references decides equality of the
+functions (C02) -/
+theorem C01_eq_spec (m : Mgr) (hI : Inv m) (u v : Int) (hu : m.tbl.Mem u) (hv : m.tbl.Mem v) :
+    (u = v ↔ ∀ a, den m.tbl u a = den m.tbl v a) :=
+  (canonical m.tbl hI.wf u v hu hv).symm
+
+end DD
